@@ -21,7 +21,7 @@ CONSTANTS MaxFeatures, MinFeatures,
 FieldFeatures == {"f_scalars", "f_enum", "f_nested", "f_map", "f_oneof", "f_optional", "f_recursive", "f_mutual", "f_forward",
                   "f_wkt", "f_reserved", "f_deppkg", "f_crossfile", "f_subpackage", "f_upper_file"}
 MethodFeatures == {"m_sstream", "m_cstream", "m_bidi", "m_lro", "m_lro_empty", "m_paged_map", "m_paged_legacy", "m_deprecated",
-                   "m_kw", "m_unsafe", "m_dep_request"}
+                   "m_kw", "m_unsafe", "m_dep_request", "m_raw_operation"}
 HttpFeatures == {"h_none", "h_additional", "h_nested_var", "h_body_star", "h_verbs"}
 ResourceFeatures == {"r_resource", "r_multi_pattern", "r_wildcard", "r_file_level", "r_child_ref"}
 SurfaceFeatures == {"s_two_services", "s_flatten", "s_required", "s_uuid4", "s_routing"}
@@ -73,7 +73,7 @@ LibraryRpcs == {"GetBook", "CreateBook", "UpdateBook", "DeleteBook", "ListBooks"
    \cup (IF Has("m_lro_empty") THEN {"PurgeBooks"} ELSE {}) \cup (IF Has("m_paged_map") THEN {"ListById"} ELSE {})
    \cup (IF Has("m_paged_legacy") THEN {"ListOld"} ELSE {}) \cup (IF Has("m_kw") THEN {"Import"} ELSE {})
    \cup (IF Has("m_unsafe") THEN {"CreateChannel"} ELSE {}) \cup (IF Has("h_nested_var") THEN {"RenameBook"} ELSE {})
-   \cup (IF Has("m_dep_request") THEN {"CheckDep"} ELSE {})
+   \cup (IF Has("m_dep_request") THEN {"CheckDep"} ELSE {}) \cup (IF Has("m_raw_operation") THEN {"StartRaw"} ELSE {})
 Paged == {"ListBooks"} \cup (IF Has("m_paged_map") THEN {"ListById"} ELSE {}) \cup (IF Has("m_paged_legacy") THEN {"ListOld"} ELSE {})
 Lro == (IF Has("m_lro") THEN {"ExportBooks"} ELSE {}) \cup (IF Has("m_lro_empty") THEN {"PurgeBooks"} ELSE {})
 ClientStreaming == (IF Has("m_cstream") THEN {"UploadBooks"} ELSE {}) \cup (IF Has("m_bidi") THEN {"ChatBooks"} ELSE {})
@@ -104,7 +104,7 @@ SnakeOf == [ GetBook |-> "get_book", CreateBook |-> "create_book", UpdateBook |-
              ListBooks |-> "list_books", MoveBook |-> "move_book", WatchBooks |-> "watch_books", UploadBooks |-> "upload_books",
              ChatBooks |-> "chat_books", ExportBooks |-> "export_books", PurgeBooks |-> "purge_books", ListById |-> "list_by_id",
              ListOld |-> "list_old", Import |-> "import_", CreateChannel |-> "create_channel", RenameBook |-> "rename_book",
-             CheckDep |-> "check_dep" ]
+             CheckDep |-> "check_dep", StartRaw |-> "start_raw" ]
 TestKinds == (IF HasT("grpc") THEN {"grpc"} ELSE {}) \cup (IF HasT("grpc") /\ HasAsync THEN {"grpc-async"} ELSE {})
              \cup (IF HasT("rest") THEN {"rest"} ELSE {})
 RequiredTests == { [rpc |-> SnakeOf[r], kind |-> k, pager |-> FALSE] : r \in LibraryRpcs, k \in TestKinds }
